@@ -258,7 +258,10 @@ func c15Searches(p *run.Part, tier string) []*seqx.Search {
 		return &seqx.Search{Part: p, Check: "iter", Cfg: cfg, Alphabet: Alphabet(3, false), Depth: d, Prefix: Prefixes[prefix], PrefixID: prefix,
 			Deadline: dl, OnState: c15Probe(p, cfg, seen, maxSize)}
 	}
-	return []*seqx.Search{mk(CfgDef3, "", depth), mk(CfgHash3, "", depth), mk(CfgSharedH, "", depth)}
+	// a log merged twice from a writer that went on in between (the walk meets a merge entry while another root is pending)
+	Prefixes["+remerge"] = []seqx.Op{{K: "app", A: 1}, {K: "app", A: 1}, {K: "app", A: 1}, {K: "app", A: 0}, {K: "join", A: 1, B: 0}, {K: "app", A: 1}, {K: "app", A: 0}, {K: "join", A: 1, B: 0}}
+	Prefixes["+remerge-w"] = []seqx.Op{{K: "app", A: 0}, {K: "app", A: 0}, {K: "app", A: 0}, {K: "app", A: 1}, {K: "join", A: 0, B: 1}, {K: "app", A: 0}, {K: "app", A: 1}, {K: "join", A: 0, B: 1}}
+	return []*seqx.Search{mk(CfgDef3, "", depth), mk(CfgHash3, "", depth), mk(CfgSharedH, "", depth), mk(CfgDef3, "+remerge", 1), mk(CfgDef3, "+remerge-w", 1)}
 }
 
 func init() {
